@@ -14,7 +14,7 @@ vars == <<inp, cfg, r, out, phase, meta>>
 P05 == INSTANCE P_C05
 P14 == INSTANCE P_C14
 
-StrictCfg == [allowId |-> FALSE, allowHier |-> FALSE, allowSize |-> FALSE, hasMax |-> FALSE, max |-> <<>>, buffered |-> {}, eofClose |-> TRUE]
+StrictCfg == [allowId |-> FALSE, allowHier |-> FALSE, allowSize |-> FALSE, hasMax |-> FALSE, max |-> <<>>, buffered |-> {}, eofClose |-> TRUE, cap0 |-> 16]
 Cfgs == {StrictCfg, [StrictCfg EXCEPT !.allowId = TRUE, !.allowHier = TRUE, !.allowSize = TRUE], [StrictCfg EXCEPT !.eofClose = FALSE, !.buffered = {B}]}
 
 \* valid known-size documents over S3 (hand-encoded) for the junk scenario
